@@ -559,6 +559,7 @@ func runPlanS(def *PropDef, p *Plan, scratch string) *RunResult {
 	segsBefore := len(segmentBases(r.Dir))
 	s.Start()
 	wg.Wait()
+	s.WaitIdle()
 	res.Steps = s.Steps()
 	res.Sites = s.SiteHits()
 	for _, hs := range s.HeldSites() {
